@@ -25,13 +25,15 @@ var (
 			"<>&, control characters, astral planes; binary = arbitrary bytes; sizes 0..1 MiB; handler = websockets.Proxy in-process with a real "+
 			"gorilla/websocket backend; oracle = model queues (exactly once, in order, type and payload unchanged in both directions); polls "+
 			"are only issued while the model says a message is outstanding; non-trivial = at least one binary and one text message and a burst "+
-			"of more than 10 messages; distinct = SHA-256 of the canonical case")
+			"of more than 10 messages; distinct = SHA-256 of the canonical case"+
+			" Later additions: runs of 2-4 binary frames of 32 KiB-100 KB right behind each other.")
 	recI = vh.NewRecorder("C11", "header-injection",
 		"JSON and non-JSON client messages {object with resource.headers object (empty, partly or fully overlapping the request headers), "+
 			"object without it, resource not an object, resource.headers not an object, array, scalar, invalid JSON, the same as binary} x 0-4 "+
 			"request headers on the data post, with header injection enabled; oracle: received == sent byte for byte unless the message is a "+
 			"JSON object with a resource.headers object, in which case received as a JSON value == sent with exactly the request headers not "+
-			"already present added; non-trivial = an injectable message with at least one request header; distinct = SHA-256 of the case")
+			"already present added; non-trivial = an injectable message with at least one request header; distinct = SHA-256 of the case"+
+			" Later additions: two concatenated JSON documents, an object followed by a trailer, an object followed by white space only (the last is a single JSON value and is injected).")
 )
 
 func TestMain(m *testing.M) { vh.Main(m, recD, recI, recC) }
